@@ -10,7 +10,9 @@ import (
 	"github.com/olive-io/bpmn/schema"
 	bpmn "github.com/olive-io/bpmn/v2"
 	"github.com/olive-io/bpmn/v2/pkg/clock"
+	"github.com/olive-io/bpmn/v2/pkg/event"
 	"github.com/olive-io/bpmn/v2/pkg/timer"
+	"github.com/olive-io/bpmn/v2/pkg/tracing"
 	"github.com/olive-io/bpmn/v2/verifrt"
 
 	"verif/harness/drv"
@@ -409,6 +411,87 @@ func procBody2(d tdef, shape string, steps int) func() {
 	}
 }
 
+// two instances of one parsed model, created at different clock times, share one mock clock,
+// one fan-out and one timer definition-instance builder (one engine serving several instances).
+// Each instance's timer catch event (a duration) is due one hour after *that instance* was
+// created: it must not continue earlier, and must continue once the clock has reached it.
+func twoInstancesBody() func() {
+	g := drv.NewGraph("c13two")
+	s, c, t, e := g.Add(drv.Start, "start"), g.Add(drv.Catch, "cT"), g.Add(drv.Task, "t"), g.Add(drv.End, "end")
+	c.Defs = []drv.EventDef{{Kind: "timer", Sub: "timeDuration", Ref: "PT1H"}}
+	g.Link(s, c, nil)
+	g.Link(c, t, nil)
+	g.Link(t, e, nil)
+	defs := g.Parse()
+	return func() {
+		sig := "C13/two-instances"
+		gap := []time.Duration{0, 40 * time.Minute, 70 * time.Minute}[verifrt.Choose(3)]
+		ctx0, cancel := context.WithCancel(context.Background())
+		defer cancel()
+		mock := clock.NewMockAt(base)
+		ctx := clock.ToContext(ctx0, mock)
+		fan := event.NewFanOut()
+		trB := tracing.NewTracer(ctx)
+		builder := event.DefinitionInstanceBuildingChain(timer.EventDefinitionInstanceBuilder(ctx, fan, trB), event.WrappingDefinitionInstanceBuilder)
+		requested := [2]int{}
+		mk := func(i int) *bpmn.Process {
+			tr := tracing.NewTracer(ctx)
+			p, err := bpmn.NewProcess(&(*defs.Processes())[0], defs, bpmn.WithContext(ctx), bpmn.WithTracer(tr),
+				bpmn.WithIdGenerator(drv.NewCounterGen(fmt.Sprintf("i%d_", i))), bpmn.WithProcessEventDefinitionInstanceBuilder(builder),
+				bpmn.WithEventEgress(fan), bpmn.WithEventIngress(fan))
+			if err != nil {
+				panic(err)
+			}
+			sub := tr.SubscribeChannel(make(chan tracing.ITrace, 1))
+			go func() {
+				for raw := range sub {
+					if _, ok := tracing.Unwrap(raw).(bpmn.TaskTrace); ok {
+						requested[i]++
+					}
+				}
+			}()
+			go p.StartAll(ctx)
+			return p
+		}
+		created := [2]time.Time{base, base.Add(gap)}
+		check := func(when string) bool {
+			now := mock.Now()
+			for i := 0; i < 2; i++ {
+				want := 0
+				if !now.Before(created[i].Add(hour)) {
+					want = 1
+				}
+				if requested[i] != want {
+					clause := "/fires-early"
+					if requested[i] < want {
+						clause = "/does-not-continue"
+					}
+					h.Fail(sig+clause, "%s (clock %s, second instance created %v after the first): instance %d, created at %s with a PT1H timer catch event, has requested the task behind it %d times, want %d", when, ts(now), gap, i+1, ts(created[i]), requested[i], want)
+					return false
+				}
+			}
+			return true
+		}
+		mk(0)
+		verifrt.WaitIdle()
+		// the clock moves on in steps of 10 minutes; the second instance is created on the way
+		second := false
+		for m := 0; m <= 200; m += 10 {
+			now := base.Add(time.Duration(m) * time.Minute)
+			mock.Set(now)
+			verifrt.WaitIdle()
+			if !second && !now.Before(created[1]) {
+				second = true
+				mk(1)
+				verifrt.WaitIdle()
+			}
+			if second && !check(fmt.Sprintf("after the move to +%dm", m)) {
+				return
+			}
+		}
+	}
+}
+
 func init() {
 	h.Register("C13", func(tier string) ([]*h.Scn, []*h.Plain) {
 		var out []*h.Scn
@@ -436,6 +519,9 @@ func init() {
 					out = append(out, &h.Scn{Name: fmt.Sprintf("C13/process/%s/moves<=2/d1", d.name), Body: procBody(d, 2), Opts: verifrt.Options{Bound: 1, UseCache: true}, Weight: 2000, Split: 8})
 				}
 			}
+		}
+		for _, d := range []int{0, 1} {
+			out = append(out, &h.Scn{Name: fmt.Sprintf("C13/two-instances/d%d", d), Body: twoInstancesBody(), Opts: verifrt.Options{Bound: d, UseCache: true}, Weight: 300 * (1 + 10*d), Split: 1 + 3*d})
 		}
 		for _, shape := range []string{"behind", "loop"} {
 			for _, d := range defs() {
